@@ -1,80 +1,12 @@
-"""Catalogue of harnesses: one entry = one CBMC query family (entry point + bounds per tier)."""
-
-BSWH = '_ZN19InterrogateDatabase26binary_search_wrapper_hashEP24InterrogateUniqueNameDefS1_RKNSt7__cxx1112basic_stringIcSt11char_traitsIcESaIcEEE'
-
-HARNESSES = [
-    dict(id='c20_bsearch', property='C20', src='c20_unique_name.cxx', entry='harness_c20_bsearch',
-         tus=['src/interrogatedb/interrogateDatabase.cxx'],
-         desc='binary_search_wrapper_hash over a sorted table of symbolic 2-char names with a symbolic key',
-         domain='n in 0..NMAX rows, names in {a,b,c}^2 strictly sorted, key in {a,b,c}^(0..KMAX)',
-         oracle='linear scan reference; recursion terminates within ceil(log2 n)+2 levels (unwinding assertion)',
-         nonterm_is_violation=True,
-         bounds=dict(quick=dict(defs=dict(NMAX=3, KMAX=3), unwind=5,
-                                unwindset={BSWH: 4, 'll_strlen.0': 4, 'll_memcmp.0': 4, 'll_memcpy.0': 4}, cap=600),
-                     thorough=dict(defs=dict(NMAX=5, KMAX=3), unwind=7,
-                                   unwindset={BSWH: 5, 'll_strlen.0': 4, 'll_memcmp.0': 4, 'll_memcpy.0': 4}, cap=3000))),
-    dict(id='c18_prettify', property='C18', src='c18_float.cxx', entry='harness_c18_prettify',
-         tus=['src/dtoolbase/pdtoa.cxx'], tuflags=['-fno-inline'], export=['_ZL8PrettifyPcii'],
-         desc='Prettify+WriteExponent on every digit string and decimal exponent',
-         domain='digits in [1-9][0-9]^(0..LMAX-1), k in -340..310',
-         oracle='reference decimal reader recovers (digits, exponent); output NUL-terminated within buffer',
-         bounds=dict(quick=dict(defs=dict(LMAX=6), unwind=50, cap=900),
-                     thorough=dict(defs=dict(LMAX=17), unwind=50, cap=3000))),
-    dict(id='c18_special', property='C18', src='c18_special.cxx', entry='harness_c18_special',
-         tus=['src/dtoolbase/pdtoa.cxx'], cut=['_ZL6Grisu2dPcPiS0_'], tuflags=['-fno-inline'],
-         desc='pdtoa on +-0, +-1, +-inf, nan', domain='7 bit patterns, symbolic choice', oracle='exact strings',
-         bounds=dict(quick=dict(unwind=9, cap=300))),
-    dict(id='c18_cachedpower', property='C18', src='c18_float.cxx', entry='harness_c18_cachedpower',
-         tus=['src/dtoolbase/pdtoa.cxx'], tuflags=['-fno-inline'], export=['_ZL14GetCachedPoweriPi'],
-         desc='GetCachedPower for every binary exponent Grisu2 can pass', domain='e in -1137..960',
-         oracle='index in table (bounds check) and alpha <= e + c.e + 64 <= gamma',
-         bounds=dict(quick=dict(unwind=3, cap=600))),
-    dict(id='c18_pstrtod', property='C18', src='c18_float.cxx', entry='harness_c18_pstrtod',
-         tus=['src/dtoolbase/pstrtod.cxx'],
-         desc='pstrtod on short decimal literals without exponent against correct rounding',
-         domain='[-] 0..NI int digits [. 0..NF frac digits]',
-         oracle='(double)m / 10^nf: one IEEE operation on exact operands = correctly rounded; endptr just past the literal',
-         bounds=dict(quick=dict(defs=dict(NI=2, NF=2, EMAX=0), unwind=8, unwindset={'ll_pow.0': 24}, cap=900),
-                     thorough=dict(defs=dict(NI=3, NF=3, EMAX=0), unwind=10, unwindset={'ll_pow.0': 24}, cap=3000))),
-    dict(id='c18_pstrtod_exp', property='C18', src='c18_float.cxx', entry='harness_c18_pstrtod',
-         tus=['src/dtoolbase/pstrtod.cxx'],
-         desc='pstrtod on short decimal literals with exponent against correct rounding',
-         domain='[-] 0..NI int digits [. 0..NF frac digits] [e[-]d], |exp| <= EMAX',
-         oracle='(double)m (*|/) 10^|k|: one IEEE operation on exact operands = correctly rounded',
-         bounds=dict(quick=dict(defs=dict(NI=1, NF=1, EMAX=2), unwind=8, unwindset={'ll_pow.0': 24}, cap=900),
-                     thorough=dict(defs=dict(NI=2, NF=2, EMAX=3), unwind=8, unwindset={'ll_pow.0': 24}, cap=3000))),
-    dict(id='c18_pstrtod_nodigits', property='C18', src='c18_float.cxx', entry='harness_c18_pstrtod_nodigits',
-         tus=['src/dtoolbase/pstrtod.cxx'], models=['env.c'],
-         desc='pstrtod on text without digits', domain='3 bytes over {. + - e space NUL x}', oracle='0.0 and endptr==nptr',
-         bounds=dict(quick=dict(unwind=6, cap=300))),
-    dict(id='c12_string', property='C12', src='c12_strings.cxx', entry='harness_c12_string_roundtrip',
-         tus=['src/interrogatedb/interrogate_datafile.cxx'],
-         desc='idf_output_string/idf_input_string (std::string) round trip followed by an integer',
-         domain='every byte string of length 0..LMAX (all 256 byte values), whitespace in {space,newline}, following int over all of int',
-         oracle='read-back string equal, stream not failed, following integer intact, integers delimited',
-         bounds=dict(quick=dict(defs=dict(LMAX=3), unwind=6, cap=600), thorough=dict(defs=dict(LMAX=6), unwind=9, cap=3000))),
-    dict(id='c12_cstring', property='C12', src='c12_strings.cxx', entry='harness_c12_cstring_roundtrip',
-         tus=['src/interrogatedb/interrogate_datafile.cxx'],
-         desc='idf_output_string/idf_input_string (const char*) round trip incl. nullptr and empty',
-         domain='NUL-free byte strings of length 0..LMAX, nullptr, whitespace in {space,newline}',
-         oracle='read-back equal / unchanged for empty, following integer intact',
-         bounds=dict(quick=dict(defs=dict(LMAX=3), unwind=6, cap=600), thorough=dict(defs=dict(LMAX=6), unwind=9, cap=3000))),
-]
-
-PROPERTY_INFO = {
-    'C12': dict(level='model_checking',
-                explanation='bounded symbolic execution (CBMC) of the real serialisation code over a token-stream model of iostreams',
-                outside='real decimal text (the stream model asserts delimitation of integers instead); files larger than the bounds; std::ifstream itself',
-                assumptions=['iostream model models/stream.c: integers are whole tokens, characters are byte tokens']),
-    'C18': dict(level='model_checking',
-                explanation='bounded symbolic execution (CBMC, IEEE-754 bit-precise) of pdtoa.cxx/pstrtod.cxx kernels lowered from /repo',
-                outside='Grisu2 digit generation over all doubles (64x64->128 symbolic multiply); literals longer than the bounds; the system strtod fallback for alphabetic input; fast-math licence not modelled',
-                assumptions=['pow(10,e) modelled exactly for integer e in 0..22; ctype functions are ASCII/C-locale']),
-    'C20': dict(level='model_checking',
-                explanation='bounded symbolic execution (CBMC) of the real query-interface code lowered from /repo',
-                outside='databases larger than the bounds; lazily loaded files (load_latest is cut)',
-                assumptions=[]),
-}
-
+"""Catalogue of harnesses: one entry = one CBMC query family (entry point + bounds per tier).
+The entries live in harness/cat/cNN.py (one file per property) so that they can be edited independently."""
+import os, glob, importlib, sys
+sys.path.insert(0, os.path.dirname(os.path.abspath(__file__)))
+HARNESSES = []
+PROPERTY_INFO = {}
 NOT_APPLICABLE = {}
-
+for _f in sorted(glob.glob(os.path.join(os.path.dirname(os.path.abspath(__file__)), 'cat', 'c[0-9]*.py'))):
+    _m = importlib.import_module('cat.' + os.path.basename(_f)[:-3])
+    HARNESSES += getattr(_m, 'HARNESSES', [])
+    PROPERTY_INFO.update(getattr(_m, 'PROPERTY_INFO', {}))
+    NOT_APPLICABLE.update(getattr(_m, 'NOT_APPLICABLE', {}))
